@@ -194,6 +194,7 @@ class Failure:
         self.key = key          # canonical identification of the failing input
         self.what = what
         self.replay = replay
+        self.family = None      # set by an oracle that can attribute the failure to a known call site
 
 
 def load_known(prop: str) -> tuple[dict[str, dict], list[dict]]:
@@ -201,7 +202,8 @@ def load_known(prop: str) -> tuple[dict[str, dict], list[dict]]:
     if not path.exists():
         return {}, []
     data = json.loads(path.read_text())
-    known = {e["key"]: e for e in data.get("findings", []) if e["property"] == prop and e["status"] == "known"}
+    known = {e.get("key") or ("family:" + e["family"]): e for e in data.get("findings", [])
+             if e["property"] == prop and e["status"] == "known"}
     fixed = [e for e in data.get("findings", []) if e["property"] == prop and e["status"] == "fixed"]
     return known, fixed
 
@@ -258,8 +260,9 @@ class Run:
             if f.key in seen:
                 continue
             seen.add(f.key)
-            if f.key in known:
-                msg = f"KNOWN-FINDING: property={self.prop} {known[f.key]['what']}"
+            kk = f.key if f.key in known else ("family:" + f.family if f.family else None)
+            if kk in known:
+                msg = f"KNOWN-FINDING: property={self.prop} {known[kk]['what']}"
                 if msg not in self.known_printed:
                     self.known_printed.append(msg)
             else:
